@@ -15,7 +15,9 @@ func stringify(ty *Type, inProcess util.PtrSet) string {
 		if inProcess.Contains(ty) {
 			return fmt.Sprintf("recursive-type %s@%p", ty.Kind, ty)
 		} else {
+			// 只标记当前路径: 同一个类型被多处引用 (DAG) 不是递归
 			inProcess.Add(ty)
+			defer inProcess.Remove(ty)
 		}
 	}
 
